@@ -92,26 +92,31 @@ class Opt(Ty):
     def sort(self):
         key = self.name
         if key not in _sort_cache:
-            d = z3.Datatype("Opt_" + _mangle(self.inner.name))
-            d.declare("none")
-            d.declare("some", ("val", self.inner.sort()))
+            m = _mangle(self.inner.name)
+            d = z3.Datatype("Opt_" + m)
+            # constructor / accessor names carry the type: the SMT-LIB text of a query is then unambiguous (second solver, stored queries)
+            d.declare("none_" + m)
+            d.declare("some_" + m, ("val_" + m, self.inner.sort()))
             _sort_cache[key] = d.create()
         return _sort_cache[key]
 
+    def _m(self):
+        return _mangle(self.inner.name)
+
     def none(self):
-        return self.sort().none
+        return getattr(self.sort(), "none_" + self._m())
 
     def some(self, t):
-        return self.sort().some(t)
+        return getattr(self.sort(), "some_" + self._m())(t)
 
     def is_none(self, t):
-        return self.sort().is_none(t)
+        return getattr(self.sort(), "is_none_" + self._m())(t)
 
     def is_some(self, t):
-        return self.sort().is_some(t)
+        return getattr(self.sort(), "is_some_" + self._m())(t)
 
     def val(self, t):
-        return self.sort().val(t)
+        return getattr(self.sort(), "val_" + self._m())(t)
 
 
 class Record(Ty):
